@@ -57,8 +57,11 @@ Section Walk.
   Variable with_times : bool.
   Variable v : view.
 
+  (* reading a missing timestamp raises *)
+  Definition w_time1 (a : addr) (k : str) : list wtok :=
+    match v_attr v a k with [WNone] => [m_err] | x => x end.
   Definition w_times (a : addr) : list wtok :=
-    if with_times then v_attr v a k_created ++ v_attr v a k_updated else [].
+    if with_times then w_time1 a k_created ++ w_time1 a k_updated else [].
 
   (* kind, name, id, type, definition [, created_at, updated_at] *)
   Definition w_header (k : ekind) (a : addr) : list wtok :=
